@@ -68,6 +68,7 @@ class RealWorld:
     def __enter__(self):
         modelfs.uninstall_global()
         if self.root is not None:
+            self._order_walk()
             return self          # already materialised: later phases see earlier writes
         base = os.environ.get('TMPDIR', '/tmp')
         self.tmp = tempfile.mkdtemp(prefix='vf-real-', dir=base)
@@ -75,10 +76,43 @@ class RealWorld:
         os.mkdir(self.root)
         self.manifest_real = {}
         self._dir(self.fs.root, self.root, '')
+        self._order_walk()
         return self
 
     def __exit__(self, *a):
+        import gemato.recursiveloader as g_rl
+        if getattr(self, '_saved_os', None) is not None:
+            g_rl.os = self._saved_os
+            self._saved_os = None
         return False
+
+    def _order_walk(self):
+        """Directory enumeration order is arbitrary on a real filesystem; the replay uses
+        the order of the model instance (any order is a possible real behaviour), so that a
+        counterexample that depends on the order reproduces."""
+        import gemato.recursiveloader as g_rl
+        world = self
+
+        class _OrderedOs:
+            def __getattr__(self, name):
+                return getattr(os, name)
+
+            @staticmethod
+            def walk(top, **kw):
+                for dirpath, dirnames, filenames in os.walk(top, **kw):
+                    rel = os.path.relpath(dirpath, world.root)
+                    try:
+                        node = world.fs.lookup(posixpath.join(
+                            modelfs.ROOT, '' if rel == '.' else rel))
+                    except OSError:
+                        node = None
+                    if node is not None and node.kind == 'dir':
+                        order = {n: i for i, n in enumerate(node.children)}
+                        dirnames.sort(key=lambda n: (order.get(n, 10 ** 6), n))
+                        filenames.sort(key=lambda n: (order.get(n, 10 ** 6), n))
+                    yield dirpath, dirnames, filenames
+        self._saved_os = g_rl.os
+        g_rl.os = _OrderedOs()
 
     def close(self):
         if self.root is not None and not self.keep:
